@@ -76,7 +76,7 @@ ENCODED = [
 BOUNDS = {
     "quick": "mode sizes 2, order 3 data tensors (order 2 for matrices), ranks <= 2 (one rank-3 SVD-padding case), one outer sweep, tol=0, "
     "seeds {0, 2**31-1} (the stream model is parametric in the seed), 2+2 runs per path",
-    "thorough": "additionally seed 1, two outer sweeps for the ALS entry points, a 3x2x2 data tensor",
+    "thorough": "additionally seed 1, two outer sweeps for the CP / TR-ALS / regression entry points, a 3x2x2 data tensor; PARAFAC2 at R=1 only",
 }
 OUTSIDE = [
     "tensor_train_cross (tensorly/contrib/decomposition/_tt_cross.py): argmax pivoting over maxvol iterations on LAPACK outputs with data-dependent loop lengths -- not encodable within reach",
@@ -726,26 +726,27 @@ def configs(tier):
     add("random_tt_matrix")
     add("random_tr")
     add("random_tr", "full", one, kw=dict(full=True))
-    add("random_parafac2", qr="orth")
-    add("random_parafac2", "normalised_full", one, qr="orth", kw=dict(normalise_factors=True, full=True))
+    add("random_parafac2", qr="orth", branch_timeout_ms=10000)
+    add("random_parafac2", "normalised_full", one, qr="orth", branch_timeout_ms=10000, kw=dict(normalise_factors=True, full=True))
     add("backend_randn")
     add("backend_gamma")
     add("parafac", "random")
     add("parafac", "random_normalize", one, kw=dict(normalize_factors=True))
-    add("parafac", "svd_rank3_padding", one, rank=3, kw=dict(init="svd"))
+    add("parafac", "svd_rank3_padding", one, rank=3, sweeps=0 if q else 1, kw=dict(init="svd"))
     add("parafac", "random_orthogonalise", one, kw=dict(orthogonalise=True))
     add("non_negative_parafac", "random")
     add("non_negative_parafac_hals", "random")
-    add("constrained_parafac", "random")
-    add("constrained_parafac", "random_budget0", one, sweeps=0)
-    add("constrained_parafac", "svd_rank3_padding", one, rank=3, kw=dict(init="svd"))
+    # (on the current tree these are the known finding: the satisfiable queries need nlsat models under root-atom facts)
+    add("constrained_parafac", "random", one, timeout_s=170 if q else 1200)
+    add("constrained_parafac", "random_budget0", sweeps=0)
+    add("constrained_parafac", "svd_rank3_padding", one, rank=3, sweeps=0 if q else 1, kw=dict(init="svd"))
     add("tucker", "random")
     # only initialize_tucker uses the svd method (the HOOI loop always calls the default truncated_svd): zero sweeps
     add("tucker", "svd_randomized_svd_init", one, shape=(2, 2), rank=[1, 1], sweeps=0, kw=dict(init="svd", svd="randomized_svd"))
     add("partial_tucker", "random", one)
     add("non_negative_tucker", "random")
     add("non_negative_tucker_hals", "random")
-    add("parafac2", "random_rank1", qr="orth", rank=1)
+    add("parafac2", "random_rank1", qr="orth", rank=1, branch_timeout_ms=10000)
     add("tensor_ring_als", "lstsq")
     add("tensor_ring_als", "normal_eq", one, kw=dict(ls_solve="normal_eq"))
     add("tensor_ring_als_sampled", "uniform")
@@ -760,14 +761,17 @@ def configs(tier):
     add("TuckerRegressor")
     add("class_CP", "random", one)
     if not q:
-        for ep in ("parafac", "non_negative_parafac", "non_negative_parafac_hals", "constrained_parafac", "tucker", "parafac2", "tensor_ring_als", "randomised_parafac", "CPRegressor", "TuckerRegressor"):
-            add(ep, "two_sweeps", one, sweeps=2, **({"kw": dict(init="random")} if ep in ("parafac",) else {}))
+        # (tucker / randomised_parafac with two sweeps: > 4000 paths from svd_flip / integer draws -- not in the bound)
+        for ep in ("parafac", "non_negative_parafac", "non_negative_parafac_hals", "constrained_parafac", "tensor_ring_als", "CPRegressor", "TuckerRegressor"):
+            add(ep, "two_sweeps", one, sweeps=2)
+        add("parafac2", "two_sweeps_rank1", one, sweeps=2, qr="orth", rank=1, branch_timeout_ms=10000)
         for ep in ("parafac", "constrained_parafac", "tucker", "tensor_ring_als"):
             add(ep, "shape322", one, shape=(3, 2, 2))
     for name in DETERMINISTIC:
         d = dict(key=f"deterministic/{name}", kind="det", ep=name, max_paths=4000, timeout_s=150 if q else 1200, vacuity=False)
         if name == "parafac2_svd":
             d["qr"] = "orth"
+            d["branch_timeout_ms"] = 10000
         out.append(d)
     return out
 
@@ -801,7 +805,10 @@ def _harness(E, cfg):
         backend.configure(solve="havoc", lstsq="havoc", svd=cfg["svd"] if "svd" in cfg else (svd_orthonormal if cfg.get("qr") == "orth" else "havoc"), qr=qr_orthonormal if cfg.get("qr") == "orth" else "havoc", eigh="havoc", rng=Backend.check_random_state)
         # queries here are either syntactically valid or have an easy model (a global draw that differs): a long refinement of
         # root atoms buys nothing, the float replay decides
-        E.q_timeout_ms = 6000
+        E.q_timeout_ms = cfg.get("q_timeout_ms", 6000)
+        from vt import sym as _sym
+
+        _sym.CTX.eval_first = True  # stub memo lookups compare large argument terms: refute by evaluation before expanding
     G = GlobalRNG(E)
     if cfg["kind"] == "det":
         call = DETERMINISTIC[cfg["ep"]](E, cfg)
